@@ -140,8 +140,60 @@ fn report_failure(args: &Args, rep: &mut Report, ast: &OpeningHoursExpression, h
     rep.violation("interval_size_bound", format!("{text:?} [{}]: {what}", hol.to_string()), json!({"expr": text, "holidays": hol.to_string(), "instant": t.to_string(), "bound_minutes": bound.num_minutes()}), known);
 }
 
+/// Bound sweep: every whole number of hours from 24 h to 60 days, every whole number of days up to
+/// 1200 (thorough: 4000), and odd minute values, on a fixed set of expressions with instants placed
+/// around B and B - 24 h: a slip tied to one size class of the bound cannot hide behind the handful
+/// of bounds the random part draws.
+fn bound_sweep(args: &Args, rep: &mut Report) {
+    let exprs = ["Mo-Fr 10:00-18:00", "Jan 10:00-12:00; Jul off", "week 10 Mo", "2030 Mar 12-2031 Feb 02", "Sa[1] 22:00-26:00 unknown", "easter", "Mo-Fr 10:00-18:00 || Su 12:00-14:00 unknown", "Dec 24-Jan 02 off; 24/7"];
+    let mut bounds: Vec<Duration> = Vec::new();
+    for h in 24..=1440 {
+        bounds.push(Duration::hours(h));
+    }
+    for d in 61..=(if args.thorough() { 4000 } else { 1200 }) {
+        bounds.push(Duration::days(d));
+    }
+    for m in (1441..=20_000).step_by(37) {
+        bounds.push(Duration::minutes(m));
+    }
+    let mut idx = 0u64;
+    for (bi, bound) in bounds.iter().enumerate() {
+        for (ei, text) in exprs.iter().enumerate() {
+            // quick: each bound with two of the eight expressions (rotating); thorough: all
+            if !args.thorough() && (bi + ei) % 4 != (args.seed % 4) as usize {
+                continue;
+            }
+            idx += 1;
+            if (idx - 1) % args.of.max(1) != args.worker {
+                continue;
+            }
+            let Ok(ast) = lib_parse(text) else { continue };
+            let Some((exact, bounded)) = build_pair(text, &HolSpec::None, *bound) else { continue };
+            let mut r = Rng::new(args.seed, 0xb0b0, idx);
+            for t in placed_instants(&exact, &mut r, &ast, *bound) {
+                rep.evaluations += 1;
+                match check(&exact, &bounded, t, *bound) {
+                    Ok(_) => rep.count("bound_sweep_instants_checked"),
+                    Err(msg) => {
+                        rep.violation("interval_size_bound", format!("{text:?} [none]: {msg}"), json!({"expr": text, "holidays": "none", "instant": t.to_string(), "bound_minutes": bound.num_minutes()}), None);
+                        if rep.full() {
+                            return;
+                        }
+                        break;
+                    }
+                }
+            }
+        }
+    }
+    rep.add("bound_sweep_bounds", bounds.len() as u64 / args.of.max(1));
+}
+
 pub fn run(args: &Args, rep: &mut Report) {
     let n = args.cases(200_000, 2_000_000);
+    bound_sweep(args, rep);
+    if rep.full() {
+        return;
+    }
     for k in 0..n {
         let mut cfg = GenCfg::standard(args.thorough()).rotated(k);
         cfg.long_intervals = k % 2 == 0;
